@@ -18,8 +18,8 @@ BUILD = os.path.join(VERIF, "build")
 GEN = os.path.join(BUILD, "gen")
 OCAML = os.path.join(BUILD, "ocaml")
 TMP = os.path.join(BUILD, "tmp")
-REPLAYS = os.path.join(VERIF, "replays")
-EVIDENCE = os.path.join(VERIF, "evidence")
+REPLAYS = os.environ.get("VERIF_REPLAY_DIR") or os.path.join(VERIF, "replays")
+EVIDENCE = os.environ.get("VERIF_EVIDENCE_DIR") or os.path.join(VERIF, "evidence")
 CORPUS = os.path.join(VERIF, "corpus")
 NCPU = min(16, os.cpu_count() or 1)
 
@@ -257,8 +257,31 @@ def proof_step(prop_files, timeout=1800):
         names = re.findall(r"^\s*(?:Theorem|Corollary|Lemma)\s+(\w+)", txt, re.M)
         theorems.extend("%s:%s" % (pf, n) for n in names)
         assumptions.update(parse_assumptions(out, re.findall(r"Print Assumptions\s+(\w+)", txt)))
-    return {"files_scanned": nfiles, "theorems": theorems, "assumptions": assumptions,
-            "checker_cmd": "make -C coq && " + " && ".join(cmds)}
+    res = {"files_scanned": nfiles, "theorems": theorems, "assumptions": assumptions,
+           "checker_cmd": "make -C coq && " + " && ".join(cmds)}
+    if os.environ.get("VERIF_TIER_CURRENT") == "thorough" and not os.environ.get("VERIF_NO_COQCHK"):
+        res["coqchk"] = coqchk(prop_files)
+        res["checker_cmd"] += " && coqchk -silent -o -Q coq AV " + " ".join(_logical(pf) for pf in prop_files)
+    return res
+
+
+def _logical(pf):
+    return "AV." + pf[:-2].replace("/", ".")
+
+
+def coqchk(prop_files, timeout=3000):
+    """independent re-check of the compiled property files and everything they depend on; returns the axioms it lists"""
+    rc, out = sh(["coqchk", "-silent", "-o", "-Q", COQ, "AV"] + [_logical(pf) for pf in prop_files], cwd=COQ, timeout=timeout)
+    if rc != 0:
+        raise CheckError("coqchk rejects the compiled development:\n" + out[-3000:])
+    m = re.search(r"\* Axioms:(.*?)\n\s*\n\* Constants/Inductives relying on type-in-type:\s*(.*?)\n", out, re.S)
+    axioms = [x.strip() for x in m.group(1).split("\n") if x.strip()] if m else ["<unparsed>"]
+    if axioms == ["<none>"]:
+        axioms = []
+    bad = [l for l in re.findall(r"\* (?:Constants/Inductives relying on type-in-type|Constants/Inductives relying on unsafe \(co\)fixpoints|Inductives whose positivity is assumed):\s*(\S.*)", out) if l.strip() != "<none>"]
+    if bad:
+        raise CheckError("coqchk reports disabled kernel checks: %r" % bad)
+    return {"axioms": axioms, "ok": True}
 
 
 def parse_assumptions(out, names):
@@ -321,6 +344,8 @@ class Result:
             tb = ["Coq 8.16.1 kernel (coqc; vm_compute used for reflection on finite domains and non-vacuity examples; no native_compute)"]
             tb.append("Print Assumptions: " + ("closed under the global context for every property theorem" if not axioms
                                                else "standard-library axioms only: " + ", ".join(axioms)))
+            if proof.get("coqchk"):
+                tb.append("coqchk -o (independent checker) re-checked the property files and their dependencies; axioms it lists: " + (", ".join(proof["coqchk"]["axioms"]) or "none"))
             tb.extend(proof.get("trusted", []))
             cov["trusted_base"] = tb
             cov["assumptions_per_theorem"] = proof["assumptions"]
